@@ -51,7 +51,8 @@ def run(tier, seed):
     d = workdir("c10")
     dump(probs, d / "problems.json")
     cfg = d / "CallProtocol.cfg"
-    cfg.write_text("SPECIFICATION Spec\nINVARIANT Emit\nINVARIANT EnteredOnlyConsistent\nINVARIANT RefusedOnlyInconsistent\n"
+    entries = '{"method", "evaluate", "evaluate_cffi"}' if tier == "quick" else '{"method", "evaluate", "evaluate_cffi", "method_cffi"}'
+    cfg.write_text(f"SPECIFICATION Spec\nCONSTANTS\n  Entries = {entries}\nINVARIANT Emit\nINVARIANT EnteredOnlyConsistent\nINVARIANT RefusedOnlyInconsistent\n"
                    "CHECK_DEADLOCK FALSE\n")
     r = run_tlc("CallProtocol", str(cfg), env={"VF_PROBLEMS": d / "problems.json"})
     import shutil
@@ -100,7 +101,7 @@ def run(tier, seed):
             else:
                 if o["returned"] and o["entered"]:
                     entered_ok += 1
-                elif not o["returned"] and o["exc"] in REFUSALS_OK_WHEN_CONSISTENT and l["entry"] == "evaluate":
+                elif not o["returned"] and o["exc"] in REFUSALS_OK_WHEN_CONSISTENT and l["entry"].startswith("evaluate"):
                     refused_ok += 1
                 elif not o["returned"]:
                     bad("consistent-call-refused", f"{o['exc']}: {o.get('msg')}")
